@@ -104,6 +104,29 @@ def observe_derived(c, rng):
     return o
 
 
+def observe_edited(c, rng):
+    """a history: a tree with one node elsewhere (other parent, other position) is measured completely, then edited in place through the
+    node's handle into the case's tree, and measured again; the second set of answers is judged (nothing remembered may survive the edit)"""
+    P, pos = c["P"], c["pos"]
+    n = len(P)
+    if n < 2:
+        return observe(c, 0, rng)
+    i = 1 + lib.vid(c) % (n - 1)
+    pre = dict(c)
+    pre["P"] = list(P); pre["P"][i] = 0
+    pre["pos"] = [list(p) for p in pos]; pre["pos"][i] = [pos[i][0] + 1, pos[i][1] - 2, pos[i][2]]
+    t, order, s = build(pre, 0, rng)
+    collect(pre, t, order, s, 1, 0)
+    if lib.vid(c) % 2:
+        t = t.copy()
+    nd = t.node(i)
+    nd.pid = P[i]
+    nd.x, nd.y, nd.z = float(pos[i][0]), float(pos[i][1]), float(pos[i][2])
+    o = collect(c, t, order, s, 1, 0)
+    o["vol_ratio"] = []
+    return o
+
+
 def collect(c, t, order, s, exact, renumbered):
     from swcgeom.analysis import Sholl
     from swcgeom.analysis.feature_extractor import extract_feature
